@@ -36,3 +36,38 @@ Example C01_example :
       Some (5, 6, SHeap, 6, 5, [1;2;3;4;2]);
       Some (3, 4, SInl, 3, 4, [1;2;3]) ].
 Proof. vm_compute. reflexivity. Qed.
+
+(* The bookkeeping of the operation model is the code's.  [step] computes the words of resize / assign(n, v) / append(n) through
+   [grow_set] (adjustCapacity when needed, then setSize), of clear / pop_back through setSize / decrSize; these are proved equal
+   (Gen/BaseTV_<S>.v) to VectorImpl::resize, assign, append, clear, pop_back as regenerated on every run by translator/base2coq.py
+   from clang's AST (on top of the regenerated adjustCapacity, grow, SafeNextCapacity, setSize ...), for SmallVector, amc::vector
+   and FixedCapacityVector, size types uint8_t and uint32_t; the overloads taking a value do the same bookkeeping. *)
+From Amc.Gen Require BaseTV_u8 BaseTV_u32.
+Theorem C01_grow_set_words :
+  forall c st xs cond n ys, BaseTV_u8.proj (grow_set c {| w := st; els := xs |} cond n ys) = BaseTV_u8.w_grow_set c st cond n.
+Proof. exact BaseTV_u8.grow_set_proj. Qed.
+Theorem C01_resize_is_the_regenerated_one_smallvector_u8 :
+  forall c, cM c = 255 -> cfg_ok c -> 255 < 2 ^ 62 -> mk_wrap c = wrap_u8 -> forall st n, fl c = FSV -> Words.WInv 255 (cN c) st -> 0 <= n <= 255 ->
+    BaseTV_u8.one c (Base_u8.sv_resize st n) = BaseTV_u8.w_grow_set c st (b_size c st <? n) n.
+Proof. exact BaseTV_u8.sv_resize_tv. Qed.
+Theorem C01_assign_is_the_regenerated_one_smallvector_u8 :
+  forall c, cM c = 255 -> cfg_ok c -> 255 < 2 ^ 62 -> mk_wrap c = wrap_u8 -> forall st n, fl c = FSV -> Words.WInv 255 (cN c) st -> 0 <= n <= 255 ->
+    BaseTV_u8.one c (Base_u8.sv_assign_n st n) = BaseTV_u8.w_grow_set c st (b_size c st <? n) n.
+Proof. exact BaseTV_u8.sv_assign_n_tv. Qed.
+Theorem C01_append_is_the_regenerated_one_smallvector_u8 :
+  forall c, cM c = 255 -> cfg_ok c -> 255 < 2 ^ 62 -> mk_wrap c = wrap_u8 -> forall st n, fl c = FSV -> Words.WInv 255 (cN c) st -> 0 <= n <= 255 ->
+    BaseTV_u8.one c (Base_u8.sv_append_n st n) = BaseTV_u8.w_grow_set c st true (b_size c st + n).
+Proof. exact BaseTV_u8.sv_append_n_tv. Qed.
+Theorem C01_pop_back_is_the_regenerated_one_smallvector_u8 :
+  forall c, cM c = 255 -> mk_wrap c = wrap_u8 -> forall st, fl c = FSV -> Words.WInv 255 (cN c) st ->
+    BaseTV_u8.one c (Base_u8.sv_pop_back st) = Some (b_decrSize c st, []).
+Proof. exact BaseTV_u8.sv_pop_back_tv. Qed.
+Theorem C01_resize_is_the_regenerated_one_vector_u32 :
+  forall c, cM c = 4294967295 -> cfg_ok c -> 4294967295 < 2 ^ 62 -> mk_wrap c = wrap_u32 -> forall st n, fl c = FVec -> BaseTV_u32.InRange st ->
+    size_ st <= capa_ st -> 0 <= n <= 4294967295 ->
+    BaseTV_u32.one c (Base_u32.std_resize st n) = BaseTV_u32.w_grow_set c st (b_size c st <? n) n.
+Proof. exact BaseTV_u32.std_resize_tv. Qed.
+Theorem C01_resize_is_the_regenerated_one_fixedcapacity_u8 :
+  forall c st n, fl c = FFCV -> BaseTV_u8.InRange st -> 0 <= n <= 255 ->
+    BaseTV_u8.one c (Base_u8.fcv_resize st n) = BaseTV_u8.w_grow_set c st (b_size c st <? n) n.
+Proof. exact BaseTV_u8.fcv_resize_tv. Qed.
